@@ -26,6 +26,7 @@ var reviewedD2 = reviewedMap([]reviewedSite{
 	{"(*transformer).transformAsm: maps.Keys of call mvdan.cc/garble.loadGoAsmNames via slices.SortedFunc", "sorted by length only; ties are distinct keys of equal length, which cannot both match at one position of strings.Replacer, and a longer key always precedes its prefixes"},
 	{"(*reflectInspector).recordReflection: maps.Keys of local ri.result.ReflectAPIs", "copies the keys not yet in checkedAPIs into a set: set inserts commute"},
 	{"(*reflectInspector).checkFunction: range param ri.result.ReflectAPIs[...] {call:(*reflectInspector).recordArgReflected,mapupdate}", "each known parameter index marks the types of one argument; results are set inserts into ReflectObjectNames and reflectParams"},
+	{"(*reflectInspector).ignoreReflectedTypes: range local ssaPkg.Members {call:(*reflectInspector).checkFunction,call:(*reflectInspector).ignoreReflectedTypes$1,ext:(*golang.org/x/tools/go/types/typeutil.MethodSetCache).MethodSet}", "chaotic iteration of monotone updates (result sets only grow) repeated by recordReflection until a whole pass records nothing: the least fix-point is the same for every visiting order; C08 R08.4 checks that no pruning state exists and that the progress measure counts parameter sets"},
 	{"validateDirectRuntimeStripping: range global requiredDirectRuntimeStrips {}", "only decides which panic message comes first; the build fails in every order"},
 	{"ctrlflow.isSupportedType: range global valueGenerators {call:ctrlflow.canConvert}", "existential test returning a constant"},
 	{"ctrlflow.(*trashGenerator).cacheMethods: range param vars {append,call:ctrlflow.deref,call:ctrlflow.isSupportedSig,mapupdate}", "memoises the method list per type; each type's list is computed from the type alone, in method-set order"},
